@@ -47,7 +47,7 @@ ROWS = {
  "C09": ("refset_* on the regenerated indexAlpha; schedule_independent, complete_eq_sequential; C09Link.model_fill_eq_seqFill and key_eq_any_complete_schedule (the MODEL's own fill loop is the sequential run of the lane-task system: every family of complete schedules gives the model's key = RFC 9106 by C04); workers_joined_facts (regenerated go/WaitGroup structure of processBlocks)",
          "T: indexAlpha, goroutine-structure facts · H: model",
          "purego-race:argonsched (GOMAXPROCS 1,2,3,16 + noise goroutines, keys = sequential model, goroutine count), argon", "that the go/Wait syntax has the modelled meaning is runtime behaviour (observed)"),
- "C10": ("C10General.roundtrip_L6 / roundtrip_general: for an ARBITRARY struct type and value inside the explicit decidable hypothesis (tiWf ∧ Unambiguous ∧ groupsSeparated; typed ∧ Representable ∧ lastTextOk ∧ noSteal) Unmarshal(Marshal v) = v — params, inline, codecs, groups, omitempty, trailing optionals; needs_* (each clause necessary); strconv round trips; parse∘render; roundtrip_/canonical_⟨S⟩ for the ten shipped layouts",
+ "C10": ("C10General.roundtrip_L6 / roundtrip_general and TiWf.roundtrip_of_typeInfoOf: for an ARBITRARY struct type that getTypeInfo accepts (tiWf is proved for everything typeInfoOf builds from supported field types) and a value inside the explicit decidable hypothesis (Unambiguous ∧ groupsSeparated; typed ∧ Representable ∧ lastTextOk ∧ noSteal) Unmarshal(Marshal v) = v — params, inline, codecs, groups, omitempty, trailing optionals; needs_* (each clause necessary); strconv round trips; parse∘render; roundtrip_/canonical_⟨S⟩ for the ten shipped layouts",
          "T: shapes · H: codec",
          "codec (run-time generated struct types incl. layout-shaped ones; round trip, re-marshal stability; the in-domain direct check uses the theorem's hypothesis)", "codec model tied differentially; F12"),
  "C11": ("parse_lossless, parse_eq_ref (= split-based reference on every input), spans_exact, values_no_delim, groups_surface_once, parse_error_iff, lexer terminal token last, lexer_goroutine_facts (regenerated)",
@@ -70,7 +70,7 @@ ROWS = {
          "cache (histories over named types; fresh-type, invalid-tag, shared-embedding and prefix-embedding families vs cold siblings; pointer-receiver codec in T/*T/**T)", "reflect"),
  "C19": ("secretSafe'_⟨S⟩ decided on the regenerated flow IR of every Check; secretSafe'_sound, mismatch_cost_independent_of_position/_of_key (cost semantics), ⟨S⟩_mismatch_cost", "T: flow IR",
          "flowcheck (names the offending statement)", "statement translator; machine-level constant time of subtle/encoders"),
- "C20": ("C10General.accepted_respell_all: for an ARBITRARY struct type with consistent options every accepted string is a tolerated respelling of Marshal(value read); needs_* (exclusions necessary); Accept.accepts_only_respellings_⟨S⟩ for the ten layouts; parser lossless/exact (C11)",
+ "C20": ("C10General.accepted_respell_all / TiWf.accepted_respell_of_typeInfoOf: for an ARBITRARY struct type that getTypeInfo accepts, with consistent options, every accepted string is a tolerated respelling of Marshal(value read); needs_* (exclusions necessary); Accept.accepts_only_respellings_⟨S⟩ for the ten layouts; parser lossless/exact (C11)",
          "T: shapes · H: codec",
          "codec (edit-distance-1 neighbourhoods, splices incl. duplicated parameters and wrap-around integers, short strings; accepted-but-unwritable values)", "codec model tied differentially; F10, F13, F14, F15"),
 }
